@@ -508,6 +508,221 @@ def _close(e):
     return list(e) + list(e[:2]) if len(e) >= 2 else list(e)
 
 
+# ---------------------------------------------------------------------------
+# histories: operations that must not affect the array they are called on
+# ---------------------------------------------------------------------------
+def snapshot(kind, a):
+    """everything C14 observes on one array object"""
+    snap = {'length': np.array(a.length, dtype='float64'), 'area': np.array(a.area, dtype='float64'),
+            'isna': np.array(a.isna(), dtype=bool), 'bytes': U.buffers_bytes(a), 'len': len(a)}
+    sc, pts = [], []
+    for i in range(len(a)):
+        e = a[i]
+        sc.append(None if e is None else (float(e.length), float(e.area)))
+        if kind == 'point':
+            pts.append(None if e is None else [float(e.x), float(e.y)])
+    snap['decode'] = pts if kind == 'point' else U.decode(a)
+    snap['scalars'] = sc
+    if kind in ('polygon', 'multipolygon'):
+        b = a.boundary
+        snap['boundary'] = None if U.is_null_typed(U.pa_of(b)) else U.decode(b)
+        snap['boundary_isna'] = np.array(b.isna(), dtype=bool)
+        snap['boundary_length'] = np.array(b.length, dtype='float64')
+    return snap
+
+
+def snap_diff(s0, s1):
+    """names of the observations that differ between two snapshots"""
+    out = []
+    for k in s0:
+        v0, v1 = s0[k], s1[k]
+        if k in ('length', 'area', 'boundary_length'):
+            same = _same(v0, v1)
+        elif k in ('isna', 'boundary_isna'):
+            same = v0.shape == v1.shape and bool((v0 == v1).all())
+        elif k == 'scalars':
+            same = len(v0) == len(v1) and all(
+                (x is None and y is None) or (x is not None and y is not None and _same(x, y))
+                for x, y in zip(v0, v1))
+        elif k in ('decode', 'boundary'):
+            same = U._nan_eq(v0, v1) if (v0 is not None and v1 is not None) else v0 is v1
+        else:
+            same = v0 == v1
+        if not same:
+            out.append(k)
+    return out
+
+
+def _filled(v, isna, how):
+    """what ffill / bfill gives for per-row values v"""
+    out = np.array(v, dtype='float64').copy()
+    idx = range(len(v)) if how == 'ffill' else range(len(v) - 1, -1, -1)
+    last = None
+    for i in idx:
+        if isna[i]:
+            out[i] = np.nan if last is None else v[last]
+        else:
+            last = i
+    return out
+
+
+def history_ops(kind, a, s0):
+    """(name, thunk) pairs; each thunk performs an operation that must leave `a` as it is and
+    returns None or (result array, expected length, expected area) for a light check"""
+    import pickle
+    import pandas as pd
+    from spatialpandas import GeoSeries
+    L, A, na = s0['length'], s0['area'], s0['isna']
+    n = len(a)
+    first = next((a[i] for i in range(n) if not na[i]), None)
+    fi = next((i for i in range(n) if not na[i]), None)
+
+    def fill_value():
+        if first is None:
+            return None
+        r = a.fillna(value=first)
+        return r, np.where(na, L[fi], L), np.where(na, A[fi], A)
+
+    def isna_mutate():
+        m = a.isna()
+        m[:] = False
+        m2 = a.isna()
+        m2[:] = True
+
+    def measure_mutate():
+        x = a.length
+        x[:] = 0.0
+        y = a.area
+        y[:] = -1.0
+
+    def take_all():
+        return a.take(np.arange(n)), L, A
+
+    def boundary():
+        if kind in ('polygon', 'multipolygon'):
+            b = a.boundary
+            b.length
+            b.isna()[:] = False
+
+    def oriented():
+        if kind in ('polygon', 'multipolygon'):
+            o = a.oriented()
+            o.area
+
+    def series_fill(how):
+        def f():
+            r = getattr(pd.Series(a), how)().values
+            return r, _filled(L, na, how), _filled(A, na, how)
+        return f
+
+    def concat():
+        r = type(a)._concat_same_type([a, a])
+        return r, np.concatenate([L, L]), np.concatenate([A, A])
+
+    ops = [
+        ('fillna_ffill', lambda: (a.fillna(method='ffill'), _filled(L, na, 'ffill'), _filled(A, na, 'ffill'))),
+        ('fillna_bfill', lambda: (a.fillna(method='bfill'), _filled(L, na, 'bfill'), _filled(A, na, 'bfill'))),
+        ('fillna_ffill_limit', lambda: (a.fillna(method='ffill', limit=1), None, None)),
+        ('fillna_value', fill_value),
+        ('isna_mutate', isna_mutate),
+        ('measure_mutate', measure_mutate),
+        ('copy', lambda: (a.copy(), L, A)),
+        ('take', take_all),
+        ('slice', lambda: (a[0:], L, A)),
+        ('boundary', boundary),
+        ('oriented', oriented),
+        ('pickle', lambda: (pickle.loads(pickle.dumps(a)), L, A)),
+        ('series_ffill', series_fill('ffill')),
+        ('series_bfill', series_fill('bfill')),
+        ('geoseries_measures', lambda: (GeoSeries(a).values, L, A)),
+        ('concat', concat),
+        ('dropna', lambda: (pd.Series(a).dropna().values, L[~na], A[~na])),
+    ]
+    return ops
+
+
+def check_history(rep, kind, st, els, desc):
+    try:
+        a = U.rebuild(kind, st, els, desc)
+    except Exception as e:
+        rep.count('construct_error:' + type(e).__name__)
+        return
+    if str(U.pa_of(a).type) == 'null':
+        rep.count('null_typed_skipped')
+        return
+    meta = {'kind': kind, 'subtype': st, 'elements': els, 'derivation': desc, 'history': True}
+    rep.evaluations += 1
+    rep.count('history')
+    try:
+        s0 = snapshot(kind, a)
+    except Exception as e:
+        rep.violation(f'raises:{kind}-history:{type(e).__name__}', 'measuring the array raised', meta)
+        return
+    # a fresh array of the same elements answers the same
+    try:
+        fresh = G.make_array(kind, s0['decode'], st) if kind != 'point' else None
+        if fresh is not None and str(U.pa_of(fresh).type) != 'null':
+            if not (_near(fresh.length, s0['length']) and _same(fresh.area, s0['area'])
+                    and (np.array(fresh.isna()) == s0['isna']).all()):
+                rep.violation(f'differs-from-fresh:{kind}',
+                              'a derived array measures differently from a fresh array of its elements',
+                              meta)
+    except Exception as e:
+        rep.count('fresh_error:' + type(e).__name__)
+    done = []
+    for name, op in history_ops(kind, a, s0):
+        res = None
+        try:
+            res = op()
+        except Exception as e:      # an operation the library / pandas version does not offer
+            rep.count(f'history-op-unavailable:{name}:{type(e).__name__}')
+        done.append(name)
+        try:
+            s1 = snapshot(kind, a)
+        except Exception as e:
+            rep.violation(f'source-broken-by:{name}:{kind}',
+                          f'after {name} measuring the SAME array object raises {type(e).__name__}',
+                          {**meta, 'operations': done})
+            return
+        diff = snap_diff(s0, s1)
+        if diff:
+            rep.violation(f'source-changed-by:{name}:{kind}',
+                          f'{kind}: after {name} the SAME array object answers differently for {diff}',
+                          {**meta, 'operations': done, 'changed': diff,
+                           'before': [list(s0['length']), list(s0['area']), list(s0['isna'])],
+                           'after': [list(s1['length']), list(s1['area']), list(s1['isna'])]})
+            return
+        if res is not None:
+            r, wl, wa = res
+            try:
+                ok = (wl is None or _near(r.length, wl)) and (wa is None or _same(r.area, wa))
+            except Exception as e:
+                rep.count(f'history-op-unavailable:{name}-result:{type(e).__name__}')
+                ok = True
+            if not ok:
+                rep.violation(f'history-result:{name}:{kind}',
+                              f'{kind}: the result of {name} does not measure as expected',
+                              {**meta, 'operations': done, 'result': [list(r.length), list(r.area)],
+                               'expected': [None if wl is None else list(wl),
+                                            None if wa is None else list(wa)]})
+        rep.count('history_op')
+
+
+def history_inputs():
+    X = {'point': [[1, 2], [3, 4]], 'multipoint': [[1, 2, 3, 4], [0, 0]],
+         'line': [[0, 0, 3, 4], [0, 0, 1, 1, 3, 2]], 'ring': [[0, 0, 3, 0, 3, 4, 0, 0], [0, 0, 1, 1, 0, 0]],
+         'multiline': [[[0, 0, 3, 4], [1, 1, 1, 3]], [[0, 0, 1, 1]]],
+         'polygon': [[[0, 0, 0, 12, 12, 12, 12, 0, 0, 0], [2, 2, 5, 2, 5, 5, 2, 5, 2, 2]], [[0, 0, 3, 0, 3, 4, 0, 0]]],
+         'multipolygon': [[[[0, 0, 3, 0, 3, 4, 0, 0]], [[5, 5, 5, 7, 7, 7, 5, 5]]], [[[0, 0, 2, 0, 2, 2, 0, 2, 0, 0]]]]}
+    for kind in G.KINDS:
+        x, y = X[kind]
+        for pat in ([x, None, y, None], [None, x], [x, None], [None, None, y, x], [x, y]):
+            for st in ('float64', 'int32'):
+                yield kind, st, list(pat), []
+                if len(pat) > 2:
+                    yield kind, st, [y] + list(pat), [('slice', 1, len(pat) + 1)]
+
+
 def direct_scalars(rep, ctx):
     """scalars built directly from nested lists (not through an array)"""
     for kind in ('multipoint', 'line', 'ring', 'multiline', 'polygon', 'multipolygon'):
@@ -531,7 +746,11 @@ def run(rep):
                 'both windings, unclosed, bow-tie, NaN vertices; parts 0..3; lines with every NaN pattern '
                 'over <=4 vertices), 3 shapes per array plus a missing element, 0-2 derivation steps '
                 '(slice/take/rotate-concat/mask/reverse), then a seeded random structured stream with '
-                'coordinates up to each subtype\'s exact band; a case is non-trivial when some ring has '
+                'coordinates up to each subtype\'s exact band; histories: measure, apply an operation that '
+                'must not affect its source (fillna by method / value, isna() and measure arrays mutated, copy, '
+                'take, slice, boundary, oriented, pickle, Series ffill/bfill/dropna, concat), re-measure the '
+                'SAME object (length, area, isna, decoded elements, scalars, boundary, buffer bytes); '
+                'a case is non-trivial when some ring has '
                 '>= 2 vertices; distinct = distinct (kind, subtype, exported buffers)')
     ctx = Ctx()
     # The map kernels are parallel=True; on a loaded machine one parallel launch costs ~0.1 s.
@@ -551,6 +770,8 @@ def run(rep):
             if n % 25 == 0:
                 rep.count('all_threads')
                 numba.set_num_threads(1)
+        for kind, st, els, desc in history_inputs():
+            check_history(rep, kind, st, els, desc)
     finally:
         numba.set_num_threads(nthreads)
     direct_scalars(rep, ctx)
@@ -565,7 +786,9 @@ def run(rep):
 def replay(rep, rp):
     ctx = Ctx()
     els = U.unjson(rp['elements'])
-    if rp.get('direct_scalar'):
+    if rp.get('history'):
+        check_history(rep, rp['kind'], rp['subtype'], els, rp.get('derivation') or [])
+    elif rp.get('direct_scalar'):
         e = G.scalar_class(rp['kind'])(els[0])
         check_scalar(rep, ctx, rp['kind'], e, els[0], {k: rp[k] for k in ('kind', 'subtype')})
     else:
